@@ -27,7 +27,7 @@ CLAIMS = {
           '997/999 map and is accepted unless the only complaints are element errors at echo positions. Decided by TLC (T_Ack) on every real execution; the '
           'visitor models Ack997/Ack999 are model-checked against the same clauses.',
   'note': 'Same scenario family as C05 (TLC-generated documents with 1-2 interchanges x 1-2 groups x 1-3 sets, envelope variants, stray and truncated trailers, '
-          'echo classes TERM/ELE/SUB/REP). Dates, times and the random control numbers of the acknowledgement are only compared header-to-trailer.',
+          'echo classes TERM/ELE/SUB/REP, and a simple element carrying the component separator of the SOURCE - read as a composite and echoed with that separator). Dates, times and the random control numbers of the acknowledgement are only compared header-to-trailer.',
   'technique': 'TLA+ model (Ack997/Ack999 over ErrTree) model-checked by TLC against AckDef/Recount + TLC scenarios realised as real documents + real re-read and '
                're-validation of every acknowledgement + TLC trace validation (T_Ack)',
  },
@@ -70,7 +70,7 @@ CLAIMS = {
           'mentioned position, none when satisfied). For every syntax note of every segment of every loadable shipped map x every presence pattern x every segment '
           'length, is_syntax_valid and segment_if.is_valid(errh_list) are run and the log is trace-validated by TLC (T_Syntax); complete table in the thorough tier.',
   'note': 'The notes a segment is judged by are read from the map XML independently and compared with what the loaded node enforces (note_not_loaded); for segments with several errors the note errors are also reported through the error-tree handler and judged by the same clauses. Errors of other validations are separated by differencing against the same is_valid call with the notes switched off; error position only required to be '
-          'one of the note positions; quick tier: 5-element generator space, distinct (note, element-count) signatures over all maps plus per-occurrence is_valid on 5 maps. '
+          'one of the note positions; quick tier: 5-element generator space, distinct (note, element-count) signatures over all maps, segment_if.is_valid once per distinct signature on every map (a note reaching past the elements its segment defines, as in the 830, is a signature of its own) plus per-occurrence is_valid on 5 maps. '
           'Not covered: the unloadable 841 map, cases where is_valid raises regardless of notes. Trusted: TLC, projections in lib/c14.py.',
   'technique': 'TLA+ model checking (TLC) Impl=Def + replay of TLC cases into the code + TLC trace validation of the complete recorded table',
  },
@@ -133,12 +133,12 @@ CLAIMS = {
  },
  'C03': {
   'text': 'Conformant documents of the real maps come from TLC DocGen (as C02). TLC Fault.tla enumerates over the full exported map every applicable single-fault plan (segment x element x '
-          'component x kind; 15 kinds of the catalogue: too long/short, bad code, bad class, bad date/time, missing required, not-used present, too many (sub-)elements, broken syntax note, '
-          'unknown / missing required / over-max segment, over-max loop) with its locality (a fault on a qualifier element or a segment-level fault is structural); one plan is applied per run '
+          'component x kind; 17 kinds of the catalogue: too long/short, bad code, bad class, bad date/time, missing required, not-used present, too many (sub-)elements, broken syntax note (P R E C L), '
+          'unknown / out-of-place / missing required / over-max segment, missing required / over-max loop) with its locality (a fault on a qualifier element or a segment-level fault is structural); one plan is applied per run '
           '(value built to break exactly one constraint, SE count kept consistent) and the faulted document validated by the real x12n_document; T_Fault (TLC) judges each record: verdict false, '
           'an error with a matching standard code at the injected segment and element position, and for local faults nothing else reported, the faulted set rejected and the other sets accepted.',
-  'note': 'Plans run on random deep walks of the map (4 documents reach 58/58 segment nodes of the 835, 201/395 of the 837P); every broken-note plan also in the variant where the segment ends at the element the note hangs on; bad codes avoid the qualifiers of same-id segments; a fault outside any set has no faulty set. Quick: 4 documents per map on 6 maps, up to 45 sampled plans per kind and map (~3000 runs); thorough: 40 documents per map on every loadable map, all plans. NotUsedSeg, '
-          'OutOfPlaceSeg and E-type notes are not generated yet; HL/LX counters and qualifier-typed dates are excluded from length/class faults (they would break two constraints). '
+  'note': 'Plans run on random deep walks of the map (4 documents reach 58/58 segment nodes of the 835, 201/395 of the 837P); every broken-note plan also in the variant where the segment ends at the element the note hangs on; bad codes avoid the qualifiers of same-id segments; a fault outside any set has no faulty set. Quick: 4 documents per map on 6 maps, up to 45 sampled plans per kind and map (~3000 runs); thorough: 40 documents per map on every loadable map, all plans. An out-of-place segment is a copy of an earlier segment whose identifier cannot follow the insertion point when the map is read forward (Fault!ForwardIds: later children and loop entries of every enclosing loop); a missing segment or loop must be reported at the segment after the gap (a missing segment: no later than the first following segment beyond its ordinal). NotUsedSeg is not generated: no shipped map declares a not-used segment. '
+          'HL/LX counters and qualifier-typed dates are excluded from length/class faults (they would break two constraints). '
           'Three recorded findings (mis-localised syntax / too-many errors). Trusted: TLC, plan application in lib/c03.py.',
   'technique': 'TLC enumeration of fault plans over the exported map + injection into TLC-generated documents + TLC trace validation of the recorded error trees and acknowledgements',
  },
@@ -182,7 +182,7 @@ CLAIMS = {
           'element and composite node of every loadable shipped map x the value catalogue of its definition x charset B/E x three exclusion settings (and DTP03/1251 elements through segment_if.is_valid '
           'with every allowed qualifier), is_valid is called with errh_list; the log (definition read by an independent XML reading, value code points, result, codes) is de-duplicated and trace-validated '
           'by TLC (T_ElemValid) - all 1856+115 signatures in the thorough tier, a stratified 15% in quick.',
-  'note': 'Composites are also judged component by component (component_missed: unless the composite itself is at fault, every component with a broken constraint has one of its codes reported at that component). Several constraints broken at once: only result false, non-empty report within the implied codes (no precedence claimed); for composites 2|1 and 5|10 are admitted; regex = Python re; external '
+  'note': 'Composites are also judged component by component (component_missed: unless the composite itself is at fault, every component with a broken constraint has one of its codes reported at that component). The reported codes must be EXACTLY the implied ones (ElemValid!Complete, also a model-level law ImplComplete of the transcription), except what the two documented precedences mask: a composite value put where a simple element is defined is not looked at further, and a value holding one of the 23 X12 control characters must show code 6 and its length errors and may keep silent about the checks after it; for composites 2|1 and 5|10 are admitted; regex = Python re; external '
           'membership = own reading of codes.xml; not covered: 841.4010.XXXC (does not load), nodes with undefined data elements. Trusted: TLC, lib/c15_*.py projections.',
   'technique': 'TLA+ model checking (TLC) of Impl-admissible-for-Def + replay of TLC cases on real map nodes + TLC trace validation of the complete recorded table',
  },
@@ -192,6 +192,8 @@ CLAIMS = {
           'instance at every first segment). Conformant documents from TLC DocGen (covering set + longest random deep walks: loops repeating back-to-back, ending their parent or the file, nested in '
           'repeating parents) of 6 maps (thorough: all) are iterated with the real X12ContextReader for no loop id and every segment-anchored loop id they contain, envelope loops included; T_Context (TLC) '
           'validates per run: no segment lost / duplicated / reordered, content, position in set and source line, grouping, tree root, tree shape. '
+          'Model level (ContextGen.tla): for every located-segment sequence <=7/8 a walk of a small loop tree can produce, with the walker\'s pop/push lists, TLC checks that the reader loop as coded '
+          '(ImplGroups) yields exactly Groups, that the _add_segment transcription (ImplAddresses) places every segment at its Address, and that Groups partitions the source. '
           'Map dispatch (spec/Driver.tla, as in C02) is replayed through iter_segments: map of every yielded node, check_837_lx flag, Map-not-found position (T_Driver).',
   'note': 'The position of a segment in its set is counted from the document itself (not taken from the reader the context reader uses); one document per child loop through which a wrapper loop is entered; a conformant document whose segments cannot be located is a violation (conformant_segment_not_located). Placement oracle = the node pyx12 matched in an independent validation run (bound to the walker transcription by C02); map objects are memoised inside the harness process. One recorded '
           'finding (ISA_LOOP trees lack the GS_LOOP level). Trusted: TLC, the tree flattener in lib/c09.py.',
@@ -214,7 +216,7 @@ CLAIMS = {
           'with values carrying < > & " \' and blanks, and - with fixtures, seeded fixture mutations, concatenated interchanges and markup-character delimiters - run through the real x12n_document; '
           'the recorded error-handler calls, source segments and the HTML parsed back with html.parser are trace-validated by TLC (T_Html): every segment once, in order, with line number and values, '
           'every claimed segment-/element-level error adjacent to its segment, no unescaped input, complete document, StripMarkup = source.',
-  'note': 'Errors reported while a body segment of a transaction set the handler has open is processed are claimed wherever the handler keeps them; reader-level errors are also put on the first and the last body segment of a set. Claimed errors = seg_error/ele_error calls made while a segment is validated and stored in the tree; isa/gs/st-level errors and errors the handler dropped are recorded, not claimed. '
+  'note': 'Errors reported while a body segment of a transaction set the handler has open is processed are claimed wherever the handler keeps them; reader-level errors are also put on the first and the last body segment of a set; element errors are put on SE / GE / IEA with values that spell a segment identifier (this corpus found the GE hack repaired by /repo 1bcd704). Claimed errors = seg_error/ele_error calls made while a segment is validated and stored in the tree; isa/gs/st-level errors and errors the handler dropped are recorded, not claimed. '
           'Six recorded findings (cursor stuck after the first interchange / in an unclosed loop / on a closed set / on envelope lines, stale element node for too-many-elements). Trusted: TLC, lib/c19_run.py.',
   'technique': 'TLA+ model checking (TLC) of the error-tree cursor and report model + realisation of emitted behaviours as documents + TLC trace validation of recorded runs (drift reported separately)',
  },
